@@ -105,6 +105,8 @@ def instance_values():
         leaf.map(vo.WithSetstate),
         st.lists(small, max_size=3).map(vo.ListLike),
         st.dictionaries(st.sampled_from(["a", "b"]), small, max_size=2).map(vo.DictLike),
+        small.map(vo.Outer.Inner),  # nested class: qualified global name at protocol >= 4
+        st.just(vo.Outer.Inner),  # the class object itself
     )
 
     def extend(children):
